@@ -130,3 +130,39 @@ theorem Five_set_third (ws : List Nat) (x : Nat) : Src.Five.set_third ws x = som
 theorem Seven_set_seventh (ws : List Nat) (x : Nat) : Src.Seven.set_seventh ws x = some (applyOp ws (.set 6 x)) := rfl
 
 end Tie
+
+/-! ## axiom audit (written by tools/tie.py --audit) -/
+#print axioms Tie.c_nameInvalid
+#print axioms Tie.HandRank_is_invalid
+#print axioms Tie.HandRank_cmp
+#print axioms Tie.c_bc
+#print axioms Tie.u64_fold_in
+#print axioms Tie.u64_has
+#print axioms Tie.u64_number_of_cards
+#print axioms Tie.u64_is_single_card
+#print axioms Tie.u64_is_valid
+#print axioms Tie.peel_loop
+#print axioms Tie.u64_peel
+#print axioms Tie.u64_from_two
+#print axioms Tie.u64_from_three
+#print axioms Tie.u64_from_four
+#print axioms Tie.u64_from_five
+#print axioms Tie.u64_from_six
+#print axioms Tie.u64_from_seven
+#print axioms Tie.Two_shift_suit
+#print axioms Tie.Three_shift_suit
+#print axioms Tie.Four_shift_suit
+#print axioms Tie.Five_shift_suit
+#print axioms Tie.Six_shift_suit
+#print axioms Tie.Seven_shift_suit
+#print axioms Tie.Two_are_unique
+#print axioms Tie.Three_are_unique
+#print axioms Tie.Four_are_unique
+#print axioms Tie.Two_is_valid
+#print axioms Tie.Two_high_card
+#print axioms Tie.Two_is_pocket_pair
+#print axioms Tie.Two_is_suited
+#print axioms Tie.Six_from_1_and_2_and_3
+#print axioms Tie.Seven_new
+#print axioms Tie.Five_set_third
+#print axioms Tie.Seven_set_seventh
